@@ -85,6 +85,18 @@ M = {
   ('symbolic min uses max', 'sourcer/expressions/list.py', "            condition = LEN(staging) >= Code(self.min_len)", "            condition = LEN(staging) >= Code(self.min_len if str(self.min_len).isdigit() or self.max_len is None else self.max_len)"),
   ('pass member value kept as field', 'sourcer/expressions/seq.py', "                if which is None or name in which:", "                if which is None or name in which or (name is None and False):"),
  ],
+ 'C06': [
+  ('revert F07', 'sourcer/expressions/byte.py', "        value = Expression.argumentize(self, out, flags)", "        value = self.argumentize(out, flags)"),
+  ('revert F08 cutoff', 'sourcer/expressions/base.py', "        if len(params) <= cutoff:\n            return func\n        else:\n            _ParseFunction = Code('_ParseFunction')\n            value = _ParseFunction(func, tuple(params[cutoff:]), ())", "        if len(params) <= 3:\n            return func\n        else:\n            _ParseFunction = Code('_ParseFunction')\n            value = _ParseFunction(func, tuple(params[2:]), ())"),
+  ('revert F09', 'sourcer/expressions/call.py', "class KeywordArg(Expression):", "class KeywordArg:"),
+  ('revert F10', 'sourcer/translator.py', "        return _hash(tuple(self))", "        return hash(tuple(self))"),
+  ('memo ignores call arguments', 'sourcer/translator.py', "    def __hash__(self):\n        # The memo table", "    def __eq__(self, other):\n        return isinstance(other, _ParseFunction) and self.func is other.func\n\n    def __hash__(self):\n        return hash(self.func)\n\n    def _unused_hash(self):\n        # The memo table"),
+  ('call drops kwargs', 'sourcer/translator.py', "        return self.func(${ctx}_text, _pos, *self.args, **dict(self.kwargs))", "        return self.func(${ctx}_text, _pos, *self.args)"),
+  ('kwargs bound positionally', 'sourcer/expressions/call.py', "            if is_kw:\n                kwargs.append((arg.name, value))\n            else:\n                args.append(value)", "            args.append(value)"),
+  ('str literal arg not wrapped', 'sourcer/expressions/str.py', "        return out.var('arg', wrap(self.value, value))", "        return value"),
+  ('parse function equality by hash', 'sourcer/translator.py', "    def __hash__(self):\n        # The memo table", "    def __eq__(self, other):\n        return isinstance(other, _ParseFunction) and hash(self) == hash(other)\n\n    def __hash__(self):\n        # The memo table"),
+  ('captured args as defaults (early binding)', 'sourcer/expressions/base.py', "            value = _ParseFunction(func, tuple(params[cutoff:]), ())\n            return out.var('arg', value)", "            value = _ParseFunction(func, tuple(params[cutoff:]), ())\n            return out.var('arg', value) if len(params) - cutoff < 2 else func"),
+ ],
  'C03': [
   ('sep drop pop', 'sourcer/expressions/sep.py', "                    with out.IF(staging):\n                        out += staging.pop()\n", "                    pass\n"),
   ('sep require_separator empty', 'sourcer/expressions/sep.py', "Code(f'not {staging} or {saw_separator}')", "Code(f'{saw_separator}')"),
